@@ -6,36 +6,43 @@ LEAN_MODULES = ['OpusProps.C05Ranges']
 GEN = []
 SOURCES = ['src/opus_encoder.c', 'src/opus_multistream_encoder.c', 'include/opus_defines.h']
 RULE = ('trace tie: for user_bitrate_to_bitrate, the CBR sizing block (:1253-1261), the low-budget gate / max_rate, '
-        'compute_equiv_rate, compute_redundancy_bytes and bytes_target / total_bitRate the harness (which #includes '
+        'compute_equiv_rate, compute_redundancy_bytes, bytes_target / total_bitRate, max_len_sum (:1616-1681), curr_max '
+        '(:1709-1716), frame_size_select and the multistream CBR clamp / per-stream curr_max the harness (which #includes '
         'src/opus_encoder.c) re-evaluates the C expressions entry by entry exactly (int64) and with every operation wrapped to '
-        'int32, on every Fs x duration at the extreme settings plus seeded random in-domain inputs; the model trace must equal the '
-        'exact values, the int32 evaluation must agree (w=1), and the real static function (where callable) must return the last '
-        'entry. Search: the real encoder built with ASan+UBSan (signed overflow fatal) through every Fs x duration x channels x '
-        '{AUTO, MAX, 500, 300000*ch, INT_MAX request} x VBR/CVBR/CBR with forced modes, complexity / loss extremes and '
-        'out_data_bytes in {1,2,3,4,100,1275,1276,1277,4000,10^6}; multistream with up to 255 channels.')
-NOT_COVERED = ['max_len_sum / curr_max of the multi-frame path (:1681, :1709-1716), frame_size_select, compute_silk_rate_for_hybrid, '
-               'the SILK maxBits arithmetic (:2052-2084) and the multistream per-stream budget split: traces exist in '
-               'OpusModel/EncSkelRanges.lean (mlTrace, cmTrace, fssTrace, msTrace) but have no theorem and no tie yet; they are '
+        'int32, on every Fs x duration at the extreme settings (incl. frame_size = INT_MAX, out_data_bytes up to INT_MAX-6, 255 '
+        'streams) plus seeded random in-domain inputs; the model trace must equal the exact values, the int32 evaluation must '
+        'agree (w=1), and the real function (user_bitrate_to_bitrate, compute_equiv_rate, compute_redundancy_bytes, '
+        'frame_size_select) must return the last entry. Search: the real encoder built with ASan+UBSan (signed overflow fatal) '
+        'through every Fs x duration x channels x {AUTO, MAX, 500, 300000*ch, INT_MAX request} x VBR/CVBR/CBR with forced modes, '
+        'complexity / loss extremes and out_data_bytes in {1,2,3,4,100,1275,1276,1277,4000,10^6}; forced SILK-only wideband '
+        '40..120 ms frames at the highest rates the ctl admits; multistream with up to 255 channels.')
+NOT_COVERED = ['compute_silk_rate_for_hybrid and the SILK maxBits arithmetic (:2052-2084), effective_max_rate (:2032): not traced; '
                'covered by the UBSan search on explored configurations only',
-               'the multistream rate allocation is covered by C05.ms_rate_no_overflow (not repeated here)']
+               'that opus_encode_native evaluates its inline expressions (cbr_bytes, max_rate, bytes_target, max_len_sum, curr_max) '
+               'exactly as the harness transcribes them: those blocks are not callable; they are tied through C05\'s native replay '
+               '(post-state / call arguments) and the UBSan search',
+               'out_data_bytes > 4000 in the multi-frame path: outside the property\'s domain; max_len_sum overflows for '
+               'out_data_bytes > INT_MAX - nb_frames and is a stack VLA of out_data_bytes bytes (observation, theorem '
+               'max_len_sum_overflows, statistics search.open_findings)',
+               'the multistream rate allocation is C05.ms_rate_no_overflow (not repeated here)']
 ASSUMPTIONS = ['settings reach the encoder only through opus_encoder_ctl (stOk; OPUS_SET_BITRATE clamps to 500..300000*channels), '
                'frame sizes through frame_size_select']
 REQUIRED_THEOREMS = ['OpusProps.C05Ranges.' + t for t in (
     'user_bitrate_fits', 'cbr_sizing_fits', 'cbr_sizing_is_model', 'gate_maxrate_fits', 'equiv_rate_fits',
+    'redundancy_bytes_fits', 'bytes_target_fits', 'max_len_sum_fits', 'max_len_sum_fits_4000', 'curr_max_fits',
+    'frame_size_select_fits', 'ms_budget_split_fits',
     'bytes_target_needs_ctl_clamp', 'max_len_sum_overflows')]
-UNPROVED = ['Fits32 for rbTrace (compute_redundancy_bytes) and btTrace (bytes_target: needs bitrate*frame_size <= 600000*2880, i.e. the '
-            'ctl clamp 300000*channels and enc_frame_size <= 60 ms) — traces tied, theorems not written', 'Fits32 for mlTrace (max_len_sum; needs out_data_bytes + nb_frames <= INT_MAX, see finding), cmTrace (curr_max), fssTrace '
-            '(frame_size_select for every int32 frame_size), msTrace (multistream budget split), compute_silk_rate_for_hybrid']
+UNPROVED = ['Fits32 for compute_silk_rate_for_hybrid and the SILK maxBits block (no trace yet)']
 LEVEL_TEXT = ('proof of absence of 32-bit overflow for the traced budget functions on the API domain (every intermediate value), '
-              'partial for the encoder: the functions listed under NOT_COVERED are searched under UBSan only')
+              'partial for the encoder: the blocks listed under NOT_COVERED are searched under UBSan only')
 LEVEL_NOTE = ('trusted: Lean kernel; that the traces list every intermediate the C expressions form (checked entry by entry against a '
               'C re-evaluation and, for the callable functions, against their return value)')
 TECHNIQUE = 'Lean 4 range theorems over evaluation traces + differential int64/int32 re-evaluation + UBSan boundary search'
 SAN_EXTRA = ['-fno-sanitize=float-cast-overflow']   # DESIGN §9 O1 (benign (int)floor(NaN) in the analysis), as in C05.py
-# Finding on the unchanged code (see report): with VBR (or OPUS_BITRATE_MAX) and a multi-frame packet, out_data_bytes near
-# INT_MAX overflows `nb_frames + repacketize_len` (opus_encoder.c:1681) and any large out_data_bytes becomes a stack VLA of that
-# size (:1683).  It is raised as a witness once the coordinator has registered it in known_findings.json under this id;
-# until then it is listed under search['open_findings'] (the check must not alarm on the unchanged tree).
+# Observation beyond the property (coordinator decision: C05 quantifies over max_data_bytes 1..4000): with VBR (or
+# OPUS_BITRATE_MAX) and a multi-frame packet, out_data_bytes near INT_MAX overflows `nb_frames + repacketize_len`
+# (opus_encoder.c:1681) and any large out_data_bytes becomes a stack VLA of that size (:1683).  Recorded as statistics under
+# search['open_findings'] (never a witness); the formal record is OpusProps.C05Ranges.max_len_sum_overflows.
 HUGE_FINDING_ID = 'C05-multiframe-huge-out'
 
 
@@ -101,15 +108,23 @@ def search(ctx):
     samples.extend([l for l in out.split('\n') if l.startswith('C ')][:3])
     res = {'cases': cases, 'distinct': len(kinds), 'oracle': 'no ASan/UBSan trap (signed-integer-overflow fatal) in the real encoder',
            'outcomes': kinds, 'samples': samples, 'witnesses': wit}
+    # the callable budget functions on the trace inputs, without the model: a process that dies between an `I` line and its
+    # `O` line trapped inside the real function (the tie alone would only report a broken correspondence)
+    cmd = [h, 'trace', str(ctx.seed), '50']
+    rc, out, err = _run(cmd)
+    lines = [l for l in out.split('\n') if l.startswith('I ') or l.startswith('O ')]
+    res['cases'] += sum(1 for l in lines if l.startswith('I '))
+    if rc != 0 and lines and (lines[-1].startswith('I ') or lines[-1].startswith('O SANITIZER') or lines[-1].startswith('O ABORT')):
+        inflight = [l for l in lines if l.startswith('I ')][-1][2:]
+        rep = [l for l in err.split('\n') if 'runtime error' in l or 'ERROR: AddressSanitizer' in l or re.match(r'\s+#[0-3] ', l)][:6]
+        wit.append({'suite': 'ranges-search-fn', 'input': inflight, 'command': ' '.join(cmd), 'expected': 'the function returns',
+                    'observed': 'trap: ' + ' | '.join(rep)[:600],
+                    'why': 'a budget function of the real encoder trapped under UBSan on an admitted argument tuple (32-bit overflow)'})
     # out_data_bytes = 10^8 and INT_MAX (honest buffers): known to trap on the unchanged tree, see HUGE_FINDING_ID
     cmd = [h, 'enc', str(ctx.seed), '0', 'huge']
     rc, out, err = _run(cmd)
     c2, _, w = _scan(rc, out, err, 'ranges-search-huge', cmd)
     res['cases'] += c2
     if w:
-        registered = any(k.get('id') == HUGE_FINDING_ID for k in common.load_known().get('findings', []))
-        if registered:
-            wit.append(w)
-        else:
-            res['open_findings'] = [dict(w, id=HUGE_FINDING_ID)]
+        res['open_findings'] = [dict(w, id=HUGE_FINDING_ID)]
     return res
